@@ -24,8 +24,17 @@ class Elem:
         return isinstance(o, Elem) and self.symbol == o.symbol
 
 
+class Iso(Elem):
+    """an isotope: a species with its own symbol that also knows its parent element (nothing in the repository may treat it differently
+    from any other species: keys are compared by symbol)"""
+    def __init__(self, symbol, z, element):
+        Elem.__init__(self, symbol, z)
+        self.element = element
+        self.mass_number = 2
+
+
 def _universe():
-    return Universe(stubs={'Element': Elem})
+    return Universe(stubs={'Element': Elem, 'Isotope': Iso})
 
 
 ALNUM = z3.Plus(z3.Union(z3.Range('a', 'z'), z3.Range('0', '9')))
@@ -73,6 +82,11 @@ class World:
         return SAtom(t)
 
     def element(self, name, variant_of=None):
+        if variant_of is None and name in getattr(self, 'iso_names', ()) and bool(self.ex.bool(name + '_is_isotope')):
+            parent = Elem(self.atom_str(name + '_parent', 'sym'), 200)
+            iso = Iso(self.atom_str(name, 'sym'), 200, parent)
+            self.differ(parent, iso)
+            return iso
         return Elem(self.atom_str(name, 'sym', variant_of.symbol if variant_of is not None else None), 200)
 
     def charge(self, name):
@@ -266,6 +280,7 @@ def same_value(fam, written, read, key=None):
          outside=['JSON float round-trip (CPython repr guarantee)', 'the real file system'])
 def round_trip(ex, uni, fam, ints):
     w = World(ex, uni)
+    w.iso_names = {'a_E0'}      # the first species of the key may be an isotope (own symbol, parent element with another symbol)
     root = w.root
     k1 = make_key(w, fam, 'a', ints)
     v1 = make_value(w, fam)
